@@ -274,7 +274,8 @@ const pv_event* pv_ev_find(int kind, int nth) {
     for (int i = 0; i < pv_w->nev; ++i) if (pv_w->ev[i].kind == kind && nth-- == 0) return &pv_w->ev[i];
     return NULL;
 }
-bool pv_ledger_is_live(const void* p) { for (int i = 0; i < pv_w->nlive; ++i) if (pv_w->live[i].ptr == p) return true; return false; }
+/* is p inside a block that is currently allocated?  (a seed handle need not be the block's first byte: the library may keep a header in front of it) */
+bool pv_ledger_is_live(const void* p) { for (int i = 0; i < pv_w->nlive; ++i) if ((const uint8_t*)p >= (const uint8_t*)pv_w->live[i].ptr && (const uint8_t*)p < (const uint8_t*)pv_w->live[i].ptr + pv_w->live[i].size) return true; return false; }
 int pv_ledger_live(void) { return pv_w->nlive; }
 void pv_ledger_forget_all(void) { pv_w->nlive = 0; }
 void pv_ledger_reclaim(int keep) { while (pv_w->nlive > keep && pv_w->nlive > 0) { free(pv_w->live[--pv_w->nlive].base); } }
